@@ -597,87 +597,116 @@ func globalContentEscapes(p *Program, g *ssa.Global, reach map[*ssa.Function]boo
 			if !ok || ld.Op != token.MUL || ld.X != ssa.Value(g) {
 				return
 			}
-			// everything derived from the loaded table
-			derived := map[ssa.Value]bool{ld: true}
-			for changed := true; changed; {
-				changed = false
-				allInstrs(fn, func(in2 ssa.Instruction) {
-					v, ok := in2.(ssa.Value)
-					if !ok || derived[v] {
-						return
-					}
-					switch x := in2.(type) {
-					case *ssa.UnOp, *ssa.FieldAddr, *ssa.Field, *ssa.IndexAddr, *ssa.Index, *ssa.Lookup, *ssa.Range, *ssa.Next, *ssa.Extract, *ssa.Phi, *ssa.Slice, *ssa.ChangeType, *ssa.MakeInterface, *ssa.TypeAssert:
-						for _, op := range x.Operands(nil) {
-							if *op != nil && derived[*op] {
-								derived[v] = true
-								changed = true
-								return
-							}
-						}
-					}
-				})
-			}
-			// a by-value copy into a local variable that does not escape (doc := tableEntry) is still the
-			// table's content: keep following it instead of reporting the copy itself
-			for changed := true; changed; {
-				changed = false
-				allInstrs(fn, func(in2 ssa.Instruction) {
-					if st, ok := in2.(*ssa.Store); ok && derived[st.Val] {
-						if al := allocBase(st.Addr); al != nil && !al.Heap && !derived[al] {
-							derived[al] = true
-							changed = true
-						}
-					}
-					v, ok := in2.(ssa.Value)
-					if !ok || derived[v] {
-						return
-					}
-					switch x := in2.(type) {
-					case *ssa.UnOp, *ssa.FieldAddr, *ssa.Field, *ssa.IndexAddr, *ssa.Index, *ssa.Lookup, *ssa.Range, *ssa.Next, *ssa.Extract, *ssa.Phi, *ssa.Slice, *ssa.ChangeType, *ssa.MakeInterface, *ssa.TypeAssert:
-						for _, op := range x.Operands(nil) {
-							if *op != nil && derived[*op] {
-								derived[v] = true
-								changed = true
-								return
-							}
-						}
-					}
-				})
-			}
-			allInstrs(fn, func(in2 ssa.Instruction) {
-				if found != "" {
-					return
-				}
-				switch x := in2.(type) {
-				case *ssa.Store:
-					if !derived[x.Val] || derived[x.Addr] {
-						return
-					}
-					if al := allocBase(x.Addr); al != nil && derived[al] {
-						return
-					}
-					if shares(p, x.Val.Type()) {
-						found = fmt.Sprintf("%s stores a %s taken from the table into another object (%s): all documents share what it points to", shortName(fn), x.Val.Type(), p.pos(x.Pos()))
-					}
-				case *ssa.MapUpdate:
-					if derived[x.Value] && !derived[x.Map] && shares(p, x.Value.Type()) {
-						found = fmt.Sprintf("%s puts a %s taken from the table into another map (%s)", shortName(fn), x.Value.Type(), p.pos(x.Pos()))
-					}
-				case *ssa.Return:
-					for _, rv := range x.Results {
-						if derived[rv] && shares(p, rv.Type()) {
-							found = fmt.Sprintf("%s returns a %s taken from the table (%s)", shortName(fn), rv.Type(), p.pos(x.Pos()))
-						}
-					}
-				}
-			})
+			found = derivedEscape(p, fn, ld, shares, reach, 0)
 		})
 		if found != "" {
 			return found
 		}
 	}
 	return ""
+}
+
+// derivedEscape: seed (a value of fn) is content of a package-level table.  Everything derived from
+// it is followed; the first place where a sharing value leaves — a store into another object, a
+// map update, a return from an exported function — is described.  A return from an UNEXPORTED
+// function is followed into its callers (a look-up helper whose callers only read the entry does
+// not let anything escape).
+func derivedEscape(p *Program, fn *ssa.Function, seed ssa.Value, shares func(*Program, types.Type) bool, reach map[*ssa.Function]bool, depth int) string {
+	derived := map[ssa.Value]bool{seed: true}
+	grow := func(withLocals bool) {
+		for changed := true; changed; {
+			changed = false
+			allInstrs(fn, func(in2 ssa.Instruction) {
+				if withLocals {
+					if st, ok := in2.(*ssa.Store); ok && derived[st.Val] {
+						if al := allocBase(st.Addr); al != nil && !al.Heap && !derived[al] {
+							derived[al] = true
+							changed = true
+						}
+					}
+				}
+				v, ok := in2.(ssa.Value)
+				if !ok || derived[v] {
+					return
+				}
+				switch x := in2.(type) {
+				case *ssa.UnOp, *ssa.FieldAddr, *ssa.Field, *ssa.IndexAddr, *ssa.Index, *ssa.Lookup, *ssa.Range, *ssa.Next, *ssa.Extract, *ssa.Phi, *ssa.Slice, *ssa.ChangeType, *ssa.MakeInterface, *ssa.TypeAssert:
+					for _, op := range x.Operands(nil) {
+						if *op != nil && derived[*op] {
+							derived[v] = true
+							changed = true
+							return
+						}
+					}
+				}
+			})
+		}
+	}
+	grow(false)
+	// a by-value copy into a local variable that does not escape (doc := tableEntry) is still the
+	// table's content: keep following it instead of reporting the copy itself
+	grow(true)
+	found := ""
+	allInstrs(fn, func(in2 ssa.Instruction) {
+		if found != "" {
+			return
+		}
+		switch x := in2.(type) {
+		case *ssa.Store:
+			if !derived[x.Val] || derived[x.Addr] {
+				return
+			}
+			if al := allocBase(x.Addr); al != nil && derived[al] {
+				return
+			}
+			if shares(p, x.Val.Type()) {
+				found = fmt.Sprintf("%s stores a %s taken from the table into another object (%s): all documents share what it points to", shortName(fn), x.Val.Type(), p.pos(x.Pos()))
+			}
+		case *ssa.MapUpdate:
+			if derived[x.Value] && !derived[x.Map] && shares(p, x.Value.Type()) {
+				found = fmt.Sprintf("%s puts a %s taken from the table into another map (%s)", shortName(fn), x.Value.Type(), p.pos(x.Pos()))
+			}
+		case *ssa.Return:
+			for ri, rv := range x.Results {
+				if !derived[rv] || !shares(p, rv.Type()) {
+					continue
+				}
+				exported := fn.Object() != nil && fn.Object().Exported()
+				if exported || fn.Parent() != nil || depth >= 3 {
+					found = fmt.Sprintf("%s returns a %s taken from the table (%s)", shortName(fn), rv.Type(), p.pos(x.Pos()))
+					continue
+				}
+				// unexported: what do the callers do with it?
+				sites := staticCallSites(p, fn)
+				for _, cs := range sites {
+					cv, ok := cs.(*ssa.Call)
+					if !ok {
+						found = fmt.Sprintf("%s returns a %s taken from the table (%s) to a deferred or go call", shortName(fn), rv.Type(), p.pos(x.Pos()))
+						break
+					}
+					var seed2 ssa.Value = cv
+					if len(x.Results) > 1 {
+						seed2 = nil
+						if cv.Referrers() != nil {
+							for _, u := range *cv.Referrers() {
+								if ex, ok := u.(*ssa.Extract); ok && ex.Index == ri {
+									seed2 = ex
+								}
+							}
+						}
+					}
+					if seed2 == nil {
+						continue
+					}
+					if f2 := derivedEscape(p, cv.Parent(), seed2, shares, reach, depth+1); f2 != "" {
+						found = f2 + " (handed on by " + shortName(fn) + ")"
+						break
+					}
+				}
+			}
+		}
+	})
+	return found
 }
 
 // globalHasWriters: some function outside init stores to g itself.
